@@ -23,6 +23,8 @@ pub use error::{Error, Result};
 pub mod payment_vault;
 #[path = "gen/node_quote.rs"]
 pub mod node_quote;
+#[path = "gen/replication_items.rs"]
+pub mod replication_items;
 #[path = "gen/put_validation.rs"]
 pub mod put_validation;
 #[path = "gen/split_items.rs"]
@@ -36,5 +38,6 @@ fn main() {
     v.extend(data_payments::harness::harnesses());
     v.extend(client_items::harness::harnesses());
     v.extend(node_quote::harness::harnesses());
+    v.extend(replication_items::harness::harnesses());
     runner::main_dispatch(v);
 }
